@@ -3,13 +3,17 @@
 check of its property, undo, and record the outcome in seeded/<id>/meta.json (detected_by) and seeded/MATRIX.md"""
 import glob, json, os, re, subprocess, sys
 
-VERIF, REPO = "/verif", "/repo"
+VERIF, REPO = os.environ.get("VERIF_ROOT", "/verif"), os.environ.get("VERIF_REPO", "/repo")
 want = set(sys.argv[1:])
 rows = []
-for d in sorted(glob.glob(VERIF + "/seeded/C*-*")):
+SEEDS = os.environ.get("VERIF_SEEDS", VERIF + "/seeded")   # where the seeds live (and where meta.json / MATRIX.md are written)
+ONLY = set(os.environ.get("VERIF_ONLY", "").split())      # e.g. "C01-4 C01-5"
+for d in sorted(glob.glob(SEEDS + "/C*-*")):
     sid = os.path.basename(d)
     pid = sid.split("-")[0]
     if want and pid not in want:
+        continue
+    if ONLY and sid not in ONLY:
         continue
     patch = d + "/patch_current.diff" if os.path.exists(d + "/patch_current.diff") and os.path.getsize(d + "/patch_current.diff") > 0 else d + "/patch.diff"
     meta = json.load(open(d + "/meta.json")) if os.path.exists(d + "/meta.json") else {}
@@ -51,7 +55,7 @@ for f in glob.glob(VERIF + "/replays/*.json"):
     os.remove(f)
 # the matrix keeps rows of properties not re-run
 old = {}
-mp = VERIF + "/seeded/MATRIX.md"
+mp = SEEDS + "/MATRIX.md"
 if os.path.exists(mp):
     for l in open(mp):
         m = re.match(r"\| (C\d\d-\d) \| ([a-z-]+) \| (.*) \|$", l.rstrip())
